@@ -1,7 +1,7 @@
 (* C12 - A variant is its predecessor minus removals plus additions; bad requests fail. *)
 From Coq Require Import List NArith Lia Permutation.
 From Truc.Model Require Import Layout Builder Spec12.
-From Truc.Proofs Require Import Variants BuilderInv Refine12.
+From Truc.Proofs Require Import Variants BuilderInv Refine12 Replay ReplayG Refine12G.
 Import ListNotations.
 
 (* Refinement: in every reachable state, every request gets the response the set-level specification
@@ -17,6 +17,15 @@ Theorem C12_refines : forall h r, hist_ok h -> req_ok r ->
   spec_equiv (abs (fst (step b r))) (fst (sp_step (abs b) r)).
 Proof. intros h r Hh Hr. exact (step_refines (run h) r Hr (run_inv12 h Hh)). Qed.
 Print Assumptions C12_refines.
+
+(* the same refinement for the GENERIC builder (same request layer, closed by its own two strategies, which
+   assign no offsets): every history of requests whose closes use the generic strategies *)
+Theorem C12_refines_generic : forall h r, Forall (rok gstrat) h -> rok gstrat r ->
+  let b := run h in
+  snd (step b r) = snd (sp_step (abs b) r) /\
+  spec_equiv (abs (fst (step b r))) (fst (sp_step (abs b) r)).
+Proof. intros h r Hh Hr. exact (step_refines_generic (run h) r Hr (run_from_ginv h Hh _ ginv_empty)). Qed.
+Print Assumptions C12_refines_generic.
 
 (* a rejected request (and a lookup) leaves the builder exactly as it was *)
 Theorem C12_rejected_unchanged : forall b r e, snd (step b r) = RErr e -> fst (step b r) = b.
